@@ -161,6 +161,13 @@ class Driver(object):
             if site == "multicall-index":
                 results = self._multicall(batch)
                 return ("return", results[pos])
+            if site == "multicall-slice":
+                # the slice form of the same access: results[pos:pos+1] is a list holding that one result
+                results = self._multicall(batch)
+                got = results[pos:pos + 1]
+                if not isinstance(got, list) or len(got) != 1:
+                    return ("return", {"<slice>": got})
+                return ("return", got[0])
             if site in ("multicall-whole-reply-index", "multicall-whole-reply-iter"):
                 # the server answers the WHOLE batch with one object (what JSON-RPC 2.0 prescribes for an
                 # unparsable or invalid batch, and what this library's server does for -32700)
@@ -347,6 +354,8 @@ def run(ctx):
         batch = [rand_reply(rng) for _ in range(n)]
         for pos in range(n):
             run_case(ctx, drv, "multicall-index", batch[pos], pos, batch)
+            if _ % 4 == 0:
+                run_case(ctx, drv, "multicall-slice", batch[pos], pos, batch)
         for pos, obs in enumerate(drv.observe_iter(batch)):
             run_case(ctx, drv, "multicall-iter", batch[pos], pos, batch, obs=obs)
     # random singles
